@@ -176,3 +176,44 @@ func diffDigests(a, b string) string {
 	}
 	return fmt.Sprintf("lengths %d vs %d", len(pa), len(pb))
 }
+
+// firstCallDiffs: every zero-argument accessor asked as the FIRST question on a freshly built object must give what it
+// gives on an object that has already answered all the others (answers do not depend on the order of questions, and no
+// accessor relies on another one having run before it). Returns one line per accessor that differs.
+func firstCallDiffs(mk func() interface{}) []string {
+	used := reflect.ValueOf(mk())
+	ms := zeroArgMethods(used.Type())
+	walked := map[string]string{}
+	for pass := 0; pass < 2; pass++ { // second pass: the answers of the fully used object
+		for _, m := range ms {
+			out, pv := callMethod(used, m)
+			if pv != nil {
+				walked[m.Name] = "panic:" + fmt.Sprint(pv)
+			} else {
+				walked[m.Name] = render(out, 0, nil)
+			}
+		}
+	}
+	var diffs []string
+	for _, m := range ms {
+		fresh := reflect.ValueOf(mk())
+		out, pv := callMethod(fresh, m)
+		got := ""
+		if pv != nil {
+			got = "panic:" + fmt.Sprint(pv)
+		} else {
+			got = render(out, 0, nil)
+		}
+		if got != walked[m.Name] {
+			a, b := got, walked[m.Name]
+			if len(a) > 160 {
+				a = a[:160]
+			}
+			if len(b) > 160 {
+				b = b[:160]
+			}
+			diffs = append(diffs, fmt.Sprintf("%s asked first = %s, on the used object = %s", m.Name, a, b))
+		}
+	}
+	return diffs
+}
